@@ -45,6 +45,17 @@ func (f *Eq) Call(s *slip.Scope, args slip.List, depth int) slip.Object {
 }
 
 func eq(x, y slip.Object) bool {
+	// There is only one empty list and it is nil, whether it is represented
+	// as nil or as a list without elements.
+	if lx, ok := x.(slip.List); ok && len(lx) == 0 {
+		x = nil
+	}
+	if ly, ok := y.(slip.List); ok && len(ly) == 0 {
+		y = nil
+	}
+	if x == nil || y == nil {
+		return x == nil && y == nil
+	}
 	// Verify the types are the same.
 	if (*[2]uintptr)(unsafe.Pointer(&x))[0] != (*[2]uintptr)(unsafe.Pointer(&y))[0] {
 		return false
